@@ -4,7 +4,7 @@ use crate::mc::*;
 use crate::Ctx;
 use rrtk::*;
 
-const TS: [i64; 9] = [i64::MIN, i64::MIN + 1, -2, -1, 0, 1, 2, i64::MAX - 1, i64::MAX];
+const TS: [i64; 15] = [i64::MIN, i64::MIN + 1, -1_500_000_007, -1_500_000_000, -2, -1, 0, 1, 2, 1_500_000_000, 1_500_000_007, (1 << 53), (1 << 53) + 1, i64::MAX - 1, i64::MAX];
 
 fn same<T: Payload>(a: &T, b: &T) -> bool {
     let (x, y) = (a.bits(), b.bits());
@@ -256,14 +256,14 @@ fn helpers(eng: &mut Eng) {
 pub fn run(ctx: &Ctx) -> Vec<Eng> {
     let mut e1 = Eng::new(
         "c03-datum-operators",
-        "every Datum operator impl of src/datum.rs (table cross-checked against the source; a missing impl is a machinery error) instantiated for every payload type it admits x all 81 ordered pairs of the timestamp alphabet {MIN, MIN+1, -2..2, MAX-1, MAX}; result time = newer operand (scalar forms: unchanged), payload = raw operator; non-trivial = the two timestamps differ",
-        "34 impl blocks, 85 instantiations x 81 pairs (scalar forms x 9)",
+        "every Datum operator impl of src/datum.rs (table cross-checked against the source; a missing impl is a machinery error) instantiated for every payload type it admits x all 225 ordered pairs of the timestamp alphabet {MIN, MIN+1, -(1.5e9+7), -1.5e9, -2..2, 1.5e9, 1.5e9+7, 2^53, 2^53+1, MAX-1, MAX} (adjacent values at magnitudes where f32 / f64 arithmetic cannot tell them apart); result time = newer operand (scalar forms: unchanged), payload = raw operator; non-trivial = the two timestamps differ",
+        "34 impl blocks, 85 instantiations x 225 pairs (scalar forms x 15)",
     );
     datum_ops(&mut e1);
     let mut e2 = Eng::new(
         "c03-selection-helpers",
-        "replace_if_older_than, replace_if_none_or_older_than(_option), latest() (both argument orders) on all 81 timestamp pairs plus empty slot / empty candidate; non-trivial = timestamps differ",
-        "81 pairs + 9 x 4 empty cases",
+        "replace_if_older_than, replace_if_none_or_older_than(_option), latest() (both argument orders) on all 225 timestamp pairs plus empty slot / empty candidate; non-trivial = timestamps differ",
+        "225 pairs + 15 x 4 empty cases",
     );
     helpers(&mut e2);
     let (mw, mn) = if ctx.thorough { (6, 7) } else { (5, 5) };
